@@ -472,6 +472,24 @@ def r_fmt(ctx, col, fields, tier):
     w, gv, fmt, other = writer_facts(ctx, col)
     spec = parse_spec(fmt) if fmt is not None else None
     float_lang = None
+    # every format spec that can produce the text of a float (all branches of the floating arm)
+    for st in gv.node.body:
+        if isinstance(st, ast.If) and any(isinstance(n, ast.Attribute) and n.attr == "issubdtype" for n in ast.walk(st.test)) \
+                and any(isinstance(n, ast.Attribute) and n.attr in ("floating", "inexact") for n in ast.walk(st.test)):
+            for b in st.body:
+                for n in ast.walk(b):
+                    cand = None
+                    if isinstance(n, ast.JoinedStr) and len(n.values) == 1 and isinstance(n.values[0], ast.FormattedValue):
+                        cand = n
+                    elif isinstance(n, ast.Call) and dotted(n.func) == "format" and len(n.args) == 2:
+                        cand = n
+                    if cand is None or cand is fmt:
+                        continue
+                    sp = parse_spec(cand)
+                    if sp is not None and not (sp[2] == "f" and sp[1] == DECIMALS and sp[3] == ""):
+                        col.bad("R-FMT", gv.qualname, gv.loc(cand), "floats carry exactly four decimals",
+                                f"`{norm_src(cand)}` writes a float with spec {sp[0]!r} on some path of the floating arm: that text does not carry the value "
+                                f"rounded to {DECIMALS} decimals (an exponent / general format keeps significant digits, not decimals)", stmt="float-spec-alt", definite=True)
     if spec is None:
         col.unresolved("R-FMT", gv.qualname, gv.loc(), "float format",
                        "no `f\"{v:<spec>}\"` return under the floating-dtype test")
